@@ -119,7 +119,66 @@ func LoadWorld(repo string, overlay map[string][]byte, tags string) (*World, err
 		w.SSA[name] = sp
 	}
 	w.collectFuncs()
+	w.canonicaliseComparisons()
 	return w, nil
+}
+
+// canonicaliseComparisons rewrites the comparison and commutative BinOps of the target
+// functions into a normal form, in place, so that no rule depends on the order in which
+// the programmer wrote the operands:
+//
+//   - a constant (incl. nil) operand is moved to the right: `nil != err` becomes `err != nil`,
+//     `0 == q.size()` becomes `q.size() == 0`, `4 > len(b)` becomes `len(b) < 4`;
+//   - `a > b` becomes `b < a` and `a >= b` becomes `b <= a` for non-constant operands (one
+//     orientation for every relational test);
+//   - for ==, != between two non-constants a parameter or a call result goes to the left of a
+//     field load (`q.sequenceBase == seq` becomes `seq == q.sequenceBase`).
+//
+// The rewritten instructions compute the same values; referrer lists are unaffected because
+// the set of operands of each instruction is unchanged.
+func (w *World) canonicaliseComparisons() {
+	mirror := map[token.Token]token.Token{token.LSS: token.GTR, token.GTR: token.LSS, token.LEQ: token.GEQ, token.GEQ: token.LEQ}
+	isConst := func(v ssa.Value) bool { _, ok := v.(*ssa.Const); return ok }
+	rank := func(v ssa.Value) int {
+		switch x := v.(type) {
+		case *ssa.Parameter:
+			return 0
+		case *ssa.Call, *ssa.Extract, *ssa.Phi:
+			return 1
+		case *ssa.UnOp:
+			if x.Op == token.MUL {
+				if _, ok := x.X.(*ssa.FieldAddr); ok {
+					return 3 // field load
+				}
+				return 2
+			}
+		}
+		return 2
+	}
+	for _, fn := range w.Funcs {
+		for _, b := range fn.Blocks {
+			for _, in := range b.Instrs {
+				bo, ok := in.(*ssa.BinOp)
+				if !ok {
+					continue
+				}
+				switch bo.Op {
+				case token.EQL, token.NEQ:
+					if isConst(bo.X) && !isConst(bo.Y) {
+						bo.X, bo.Y = bo.Y, bo.X
+					} else if !isConst(bo.X) && !isConst(bo.Y) && rank(bo.X) > rank(bo.Y) {
+						bo.X, bo.Y = bo.Y, bo.X
+					}
+				case token.LSS, token.LEQ, token.GTR, token.GEQ:
+					if isConst(bo.X) && !isConst(bo.Y) {
+						bo.X, bo.Y, bo.Op = bo.Y, bo.X, mirror[bo.Op]
+					} else if !isConst(bo.X) && !isConst(bo.Y) && (bo.Op == token.GTR || bo.Op == token.GEQ) {
+						bo.X, bo.Y, bo.Op = bo.Y, bo.X, mirror[bo.Op]
+					}
+				}
+			}
+		}
+	}
 }
 
 func (w *World) collectFuncs() {
